@@ -238,11 +238,17 @@ func (w *walker) walk(v reflect.Value, path, norm string) {
 			// wrapP*: a LONGER string with the same value modulo the field prime — what felt.SetBytes
 			// makes of a string of 32 bytes or more (same prefix; prefix with the last digit bumped)
 			muts = append(muts, "chop", "wrapP", "wrapPbump")
+			if c := v.String()[v.Len()-1]; c >= '0' && c <= '9' {
+				muts = append(muts, "zeropad") // "0.14.0" -> "0.14.00": same parsed version, other bytes
+			}
 		}
 		w.visit(path, norm, "string", muts, siteCtx{Len: v.Len()}, func(m string) {
 			switch m {
 			case "chop":
 				v.SetString(v.String()[:v.Len()-1])
+			case "zeropad":
+				x := v.String()
+				v.SetString(x[:len(x)-1] + "0" + x[len(x)-1:])
 			case "wrapP":
 				v.SetString(wrapModP(v.String(), v.String()+"."))
 			case "wrapPbump":
